@@ -15,7 +15,8 @@ def run(ctx):
     bad, st = ctx.accept(ACC, ACC_CFG, traces)
     if st.get("segs", 0) != meta["segments"] or (not bad and st.get("rets", 0) != meta["segments"]):
         raise vlib.Infra("acceptor saw %s segments / %s returns, driver wrote %s" % (st.get("segs"), st.get("rets"), meta["segments"]))
-    if not bad and st.get("plans", 0) != meta["plans"]:
+    # the acceptors count distinct plans per shard (a plan traced twice may fall into one shard or two)
+    if not bad and not (meta["plans_distinct"] <= st.get("plans", 0) <= meta["plans"]):
         raise vlib.Infra("required fault plans %s, distinct plans validated %s" % (meta["plans"], st.get("plans")))
     vlib.add_bad_segments(ctx, traces, bad)
     ctx.cov.update(
